@@ -2,15 +2,16 @@
 import PflDrv.Json
 import Pfl.Spec.FA
 import Pfl.Oracle.LangEquiv
+import Pfl.Oracle.RegOps
+import Pfl.Model.Names
 open Lean Pfl
 namespace PflDrv
 
-/-- `to_single_state`: sorted `;`-join of the `str` of the values -/
 def mergeName (names : Nat → String) (S : List Nat) : String :=
-  ";".intercalate ((S.map names).toArray.qsort (· < ·)).toList
+  String.ofList (Names.mergeName (fun q => (names q).toList) S)
 
 def pairName (na : Nat → String) (nb : Nat → String) (p : Nat × Nat) : String :=
-  na p.1 ++ "; " ++ nb p.2
+  String.ofList (Names.pairName (fun q => (na q).toList) (fun q => (nb q).toList) p)
 
 def nameFn (names : List String) (n : Nat) : String := names.getD n s!"?{n}"
 
@@ -86,6 +87,15 @@ def faHandle (op : String) (j : Json) : R Json := do
     match A.langDiff B bigFuel with
     | none => throw "fuel"
     | some r => pure (Json.mkObj [("equiv", jBool r.isNone), ("word", jOpt jNatList r)])
+  | "fa.langUpTo" =>   -- oracle
+    let A ← asENFA (← field j "A")
+    checkWF A
+    let n ← asNat (← field j "n")
+    pure (jList jNatList (A.langUpTo n))
+  | "fa.cycle" =>   -- oracle
+    let A ← asENFA (← field j "A")
+    checkWF A
+    pure (jBool A.reachableCycle)
   | _ => throw s!"unknown op {op}"
 
 end PflDrv
